@@ -311,6 +311,13 @@ def _comp_from_loop(loop: ast.For):
         return None
     st = body[0]
     loopvars = {n.id for g in gens for n in ast.walk(g.target) if isinstance(n, ast.Name)}
+    # `if c: x.append(a) else: x.append(b)`  is  `x.append(a if c else b)`
+    if isinstance(st, ast.If) and len(st.body) == 1 and len(st.orelse) == 1:
+        a, b = st.body[0], st.orelse[0]
+        if all(isinstance(z, ast.Expr) and isinstance(z.value, ast.Call) and isinstance(z.value.func, ast.Attribute) and z.value.func.attr == 'append' and len(z.value.args) == 1 and not z.value.keywords for z in (a, b)) \
+                and ast.dump(a.value.func.value) == ast.dump(b.value.func.value):
+            st = ast.copy_location(ast.Expr(value=ast.Call(func=a.value.func, args=[ast.IfExp(test=st.test, body=a.value.args[0], orelse=b.value.args[0])], keywords=[])), st)
+            ast.fix_missing_locations(st)
     # an inner loop that was already rewritten: `x += [comprehension]` / `x.update({comprehension})`
     if isinstance(st, ast.AugAssign) and isinstance(st.op, ast.Add) and isinstance(st.value, ast.ListComp):
         if {n.id for n in ast.walk(st.target) if isinstance(n, ast.Name)} & loopvars:
@@ -598,6 +605,13 @@ def _inline_body(helper: ast.FunctionDef, call: ast.Call, is_method: bool, tag: 
             bound[p] = defaults[p]
     body = [s for s in helper.body if not (isinstance(s, ast.Expr) and isinstance(s.value, ast.Constant) and isinstance(s.value.value, str))]
     body = copy.deepcopy(body)
+    # a chain `if c1: return a1` ... `return z` is the expression `a1 if c1 else ... z`
+    if len(body) >= 2 and isinstance(body[-1], ast.Return) and body[-1].value is not None and all(
+            isinstance(x, ast.If) and not x.orelse and len(x.body) == 1 and isinstance(x.body[0], ast.Return) and x.body[0].value is not None for x in body[:-1]):
+        e = body[-1].value
+        for x in reversed(body[:-1]):
+            e = ast.IfExp(test=x.test, body=x.body[0].value, orelse=e)
+        body = [ast.copy_location(ast.Return(value=e), body[-1])]
     # returns: none, or one final `return e`
     rets = [n for s in body for n in ast.walk(s) if isinstance(n, ast.Return)]
     result = None
@@ -625,10 +639,11 @@ def _inline_body(helper: ast.FunctionDef, call: ast.Call, is_method: bool, tag: 
     if result is not None:
         result = sub.visit(copy.deepcopy(result)) if not isinstance(result, ast.Name) or True else result
     out = pre + body
-    for s in out:
+    for s in pre:
         for n in ast.walk(s):
-            if hasattr(n, 'lineno'):
-                n.lineno = n.end_lineno = line_of
+            n.lineno = n.end_lineno = line_of
+            n.col_offset = n.end_col_offset = 0
+    # the statements of the helper keep their own positions (they are lines of the same file; reports point at them)
     return out, result
 
 
@@ -675,6 +690,16 @@ def inline_unknown_helpers(tree: ast.Module, path: str) -> None:
                             continue
                         if result is None:
                             result = ast.Constant(value=None)
+                        if isinstance(st, ast.Assign) and len(st.targets) == 1 and isinstance(st.targets[0], ast.Name) and isinstance(result, ast.Name) and result.id.endswith(f'__h{counter[0]}'):
+                            # `t = helper()` whose helper returns one of its locals: that local is t
+                            old_name, new_name = result.id, st.targets[0].id
+                            for b_ in body:
+                                for n_ in ast.walk(b_):
+                                    if isinstance(n_, ast.Name) and n_.id == old_name:
+                                        n_.id = new_name
+                            out.extend(body)
+                            changed = True
+                            continue
                         st.value = ast.copy_location(result, st.value)
                         out.extend(body)
                         out.append(st)
@@ -685,19 +710,27 @@ def inline_unknown_helpers(tree: ast.Module, path: str) -> None:
                     hh = helper_of(sub)
                     if hh is None:
                         continue
-                    hb = [s for s in hh[0].body if not (isinstance(s, ast.Expr) and isinstance(s.value, ast.Constant))]
-                    if len(hb) == 1 and isinstance(hb[0], ast.Return) and hb[0].value is not None:
-                        counter[0] += 1
-                        r = _inline_body(hh[0], sub, hh[1], f'h{counter[0]}', st.lineno)
-                        if r is not None and not r[0]:
-                            _replace_node(st, sub, r[1])
-                            changed = True
+                    if _conditionally_evaluated(st, sub):
+                        continue
+                    counter[0] += 1
+                    r = _inline_body(hh[0], sub, hh[1], f'h{counter[0]}', st.lineno)
+                    if r is not None and r[1] is not None:
+                        out.extend(r[0])
+                        _replace_node(st, sub, r[1])
+                        changed = True
                 out.append(st)
             setattr(owner, field, out)
         if changed:
             ast.fix_missing_locations(fn)
             expand_in(fn, cls_helpers, depth + 1)
 
+    for h in mod_helpers.values():
+        h._verif_new_helper = True
+    for node in tree.body:
+        if isinstance(node, ast.ClassDef):
+            for f in node.body:
+                if isinstance(f, ast.FunctionDef) and f'{path}::{node.name}.{f.name}' not in inv:
+                    f._verif_new_helper = True
     for node in tree.body:
         if isinstance(node, ast.FunctionDef):
             expand_in(node, {})
@@ -706,6 +739,43 @@ def inline_unknown_helpers(tree: ast.Module, path: str) -> None:
             for f in node.body:
                 if isinstance(f, ast.FunctionDef):
                     expand_in(f, helpers)
+    _mark_transparent(tree)
+
+
+def _mark_transparent(tree: ast.Module) -> None:
+    """a new helper none of whose uses is left after the expansion is examined through its callers only"""
+    helpers = [n for n in ast.walk(tree) if isinstance(n, ast.FunctionDef) and getattr(n, '_verif_new_helper', False)]
+    for h in helpers:
+        own = {id(x) for x in ast.walk(h)}
+        used = any((isinstance(n, ast.Name) and n.id == h.name) or (isinstance(n, ast.Attribute) and n.attr == h.name) for n in ast.walk(tree) if id(n) not in own)
+        h._verif_transparent = not used
+
+
+def _conditionally_evaluated(st: ast.AST, call: ast.Call) -> bool:
+    """the call sits in a part of the statement that is not always evaluated (or evaluated several times)"""
+    def inside(n, seen_cond):
+        if n is call:
+            return seen_cond
+        for field, v in ast.iter_fields(n):
+            children = v if isinstance(v, list) else [v]
+            for ch in children:
+                if not isinstance(ch, ast.AST):
+                    continue
+                cond = seen_cond
+                if isinstance(n, ast.IfExp) and field in ('body', 'orelse'):
+                    cond = True
+                if isinstance(n, ast.BoolOp) and ch is not n.values[0]:
+                    cond = True
+                if isinstance(n, (ast.Lambda, ast.ListComp, ast.SetComp, ast.DictComp, ast.GeneratorExp)) and not (field == 'generators' and isinstance(v, list) and ch is v[0]):
+                    cond = True
+                if isinstance(n, ast.comprehension) and field != 'iter':
+                    cond = True
+                r = inside(ch, cond)
+                if r is not None:
+                    return r
+        return None
+
+    return bool(inside(st, False))
 
 
 def _replace_node(root: ast.AST, old: ast.AST, new: ast.AST) -> None:
@@ -737,7 +807,22 @@ def normalise_module(tree: ast.Module, path: str) -> ast.Module:
     for fn in reversed(list(_functions(tree))):
         BlockLevel(fn).run()
     ast.fix_missing_locations(tree)
+    number(tree)
     return tree
+
+
+def number(tree: ast.AST) -> None:
+    """document order of the normalised tree (expanded helpers keep the line numbers of their definition, so line numbers do
+    not order the statements of a function any more): node._verif_seq"""
+    k = [0]
+
+    def go(n):
+        k[0] += 1
+        n._verif_seq = k[0]
+        for ch in ast.iter_child_nodes(n):
+            go(ch)
+
+    go(tree)
 
 
 class _PatternFunc(ast.FunctionDef):
